@@ -810,12 +810,15 @@ def check_target(pid, repo=None, verif=None, timeout=120, keep=False):
     try:
         text = HEADER + "\n".join(translate_spec(repo, sp) for sp in specs)
     except Unsupported as e:
-        return [(name, False, "the translator does not understand the current source (fail closed; this says nothing "
-                              "about the behaviour of the code): %s" % e)]
+        # not applicable (None), not broken: the function was rewritten into a shape outside the translator's subset.  The
+        # source-level tie then says nothing; the case-based tie (escalated to the thorough tier's cases by the source
+        # fingerprint) decides alone, as it does for every function that was never translated.
+        return [(name, None, "the translator does not understand the current source (it refuses rather than guess; this says "
+                             "nothing about the behaviour of the code, the case-based tie decides alone): %s" % e)]
     except (OSError, SyntaxError) as e:
         return [(name, False, "cannot read the source: %s: %s" % (type(e).__name__, e))]
     except Exception as e:      # a defect of the translator itself: also closed
-        return [(name, False, "the translator failed on the current source (%s: %s)" % (type(e).__name__, e))]
+        return [(name, None, "the translator failed on the current source (%s: %s); the case-based tie decides alone" % (type(e).__name__, e))]
     bad = [t for t in FORBIDDEN_TOKENS if re.search(r"\b%s\b" % t, strip_coq_comments(text.replace(HEADER, "")))]
     if bad:
         return [(name, False, "generated text contains %s" % bad)]
